@@ -87,7 +87,7 @@ def handle (j : Json) : Except String Json := do
       let r := specPair msq (tiny * tiny) sops box a1.pos a2.pos
       let bonded := match r with
         | none => false
-        | some (d2, _) => ruleBonded constsF.factor a1.radius a2.radius (Float.sqrt d2) a1.hyd a2.hyd a1.part a2.part
+        | some (d2, _) => ruleBonded (ratToFloat statementFactor) a1.radius a2.radius (Float.sqrt d2) a1.hyd a2.hyd a1.part a2.part
       (i, j, r, bonded)
     let bondedF := fun i j => pairs.any fun (i', j', _, b) => i' == i && j' == j && i != j && b
     let labels := specLabels n bondedF
